@@ -61,6 +61,7 @@ package discovery
 // error; no nil dereference, no out-of-range index on the way.
 //@ func NewDiscoveryError
 //@   property C20
+//@   safety
 //@   ensures res != nil && fresh(res)
 
 //@ func (c *HTTPModelDiscoveryClient) recordError
@@ -153,6 +154,7 @@ package discovery
 //@ spec func itemName(x interface{}) string = ite(typeis(x, "*domain.ModelInfo"), asType(x, "*domain.ModelInfo").Name, "")
 //@ func (s *ModelDiscoveryService) applyModelFilter$1
 //@   property C10
+//@   safety
 //@   pureresult
 //@   ensures res == itemName(item)
 
